@@ -108,10 +108,12 @@ def run(ctx):
             st = ctx.path("selftest.ndjson")
             with open(st, "w") as f:
                 f.write(json.dumps(picked) + "\n")
-            nd = len(ctx.drifts)
+            nd, nv = len(ctx.drifts), len(ctx.violations)
             h2 = ctx.vh(exe, ["replay", st, ctx.tier], count_samples=False)
-            del ctx.drifts[nd:]          # the drift provoked by the self-test is not a finding about the code
-            if int(h2.stats.get("drifts", 0)) < 1:
+            noticed = int(h2.stats.get("drifts", 0)) + sum(1 for v in h2.violations if "+beyond-tolerance/" in v["sig"])
+            del ctx.drifts[nd:]          # what the self-test provokes is not a finding about the code
+            del ctx.violations[nv:]
+            if noticed < 1:
                 ctx.broken.append("binding self-test: a falsified prediction was not noticed by vh-wire replay")
             else:
                 ctx.cov(binding_selftests_rejected=1)
